@@ -19,8 +19,18 @@ def objIds (s : Obj) : List Nat := s.slots.flatMap slotIds
 /-- What the live models guarantee of every slot of a reachable object: the
 stored value and the default are fixed points of the trait's validation. -/
 structure WFSlot (E : Env) (sl : Slot) : Prop where
-  dflt : Valid E sl.decl.shape sl.decl.dflt
+  /-- whatever the default factory hands out is valid for the trait -/
+  dflt : ∀ n, Valid E sl.decl.shape (defaultOf sl n).1
   val : ∀ v, sl.val = some v → Valid E sl.decl.shape v
+
+theorem defaultOf_le (sl : Slot) (n : Nat) : n ≤ (defaultOf sl n).2 := by
+  unfold defaultOf; split <;> simp
+
+theorem defaultOf_ids (sl : Slot) (n : Nat) : ∀ i ∈ ids (defaultOf sl n).1, i ∈ ids sl.decl.dflt := by
+  unfold defaultOf
+  split
+  · intro i hi; simp [ids] at hi
+  · intro i hi; exact hi
 
 def WFObj (E : Env) (s : Obj) : Prop := ∀ sl ∈ s.slots, WFSlot E sl
 
@@ -64,10 +74,11 @@ theorem readSlot_spec {E : Env} (hI : Idem E) {sl : Slot} (hw : WFSlot E sl) (o 
     rw [this]
     exact ⟨hw.val v hv, rfl, hv, Nat.le_refl _⟩
   | none =>
-    obtain ⟨v', n', hval, -⟩ := validate_of_valid hw.dflt o n
+    obtain ⟨v', n', hval, -⟩ := validate_of_valid (hw.dflt n) o (defaultOf sl n).2
     have : readSlot E o n sl = (v', { sl with val := some v' }, n') := by simp [readSlot, hv, hval]
     rw [this]
-    exact ⟨(validate_live hI o _ _ _ _ _ hval).valid, rfl, rfl, (validate_ids o _ _ _ _ _ hval).1⟩
+    exact ⟨(validate_live hI o _ _ _ _ _ hval).valid, rfl, rfl,
+      Nat.le_trans (defaultOf_le sl n) (validate_ids o _ _ _ _ _ hval).1⟩
 
 theorem readSlot_some {E : Env} {sl : Slot} {v : CVal} (hv : sl.val = some v) (o n : Nat) :
     readSlot E o n sl = (v, sl, n) := by
@@ -76,7 +87,9 @@ theorem readSlot_some {E : Env} {sl : Slot} {v : CVal} (hv : sl.val = some v) (o
 theorem readSlot_wf {E : Env} (hI : Idem E) {sl : Slot} (hw : WFSlot E sl) (o n : Nat) :
     WFSlot E (readSlot E o n sl).2.1 := by
   obtain ⟨h1, h2, h3, -⟩ := readSlot_spec hI hw o n
-  refine ⟨by rw [h2]; exact hw.dflt, ?_⟩
+  refine ⟨fun m => by
+    have e : defaultOf (readSlot E o n sl).2.1 m = defaultOf sl m := by simp [defaultOf, h2]
+    rw [e, h2]; exact hw.dflt m, ?_⟩
   intro v hv
   rw [h3] at hv
   cases hv
@@ -121,13 +134,16 @@ theorem readSlot_below {E : Env} {sl : Slot} {n m : Nat} (hb : (∀ i ∈ slotId
     have h1 : ∀ i ∈ ids v, i < n := fun i hi => Nat.lt_of_lt_of_le (hb.1 i (by simp [slotIds, hv, hi])) hm
     exact ⟨fun i hi => by simp [slotIds, hv] at hi; exact h1 i hi, h1, Nat.le_refl _⟩
   | none =>
-    cases hval : validate E o sl.decl.shape n sl.decl.dflt with
+    have hd := defaultOf_le sl n
+    have hdi := defaultOf_ids sl n
+    cases hval : validate E o sl.decl.shape (defaultOf sl n).2 (defaultOf sl n).1 with
     | error e =>
-      have : readSlot E o n sl = (sl.decl.dflt, { sl with val := some sl.decl.dflt }, n) := by
+      have : readSlot E o n sl = ((defaultOf sl n).1, { sl with val := some (defaultOf sl n).1 }, (defaultOf sl n).2) := by
         simp [readSlot, hv, hval]
       rw [this]
-      have h1 : ∀ i ∈ ids sl.decl.dflt, i < n := fun i hi => Nat.lt_of_lt_of_le (hb.2 i hi) hm
-      exact ⟨fun i hi => by simp [slotIds] at hi; exact h1 i hi, h1, Nat.le_refl _⟩
+      have h1 : ∀ i ∈ ids (defaultOf sl n).1, i < (defaultOf sl n).2 :=
+        fun i hi => Nat.lt_of_lt_of_le (Nat.lt_of_lt_of_le (hb.2 i (hdi i hi)) hm) hd
+      exact ⟨fun i hi => by simp [slotIds] at hi; exact h1 i hi, h1, hd⟩
     | ok r =>
       obtain ⟨v', n'⟩ := r
       have : readSlot E o n sl = (v', { sl with val := some v' }, n') := by simp [readSlot, hv, hval]
@@ -137,8 +153,8 @@ theorem readSlot_below {E : Env} {sl : Slot} {n m : Nat} (hb : (∀ i ∈ slotId
         intro i hi
         rcases hl.2 i hi with h | h
         · exact h.2
-        · exact Nat.lt_of_lt_of_le (Nat.lt_of_lt_of_le (hb.2 i h) hm) hl.1
-      exact ⟨fun i hi => by simp [slotIds] at hi; exact h1 i hi, h1, hl.1⟩
+        · exact Nat.lt_of_lt_of_le (Nat.lt_of_lt_of_le (Nat.lt_of_lt_of_le (hb.2 i (hdi i h)) hm) hd) hl.1
+      exact ⟨fun i hi => by simp [slotIds] at hi; exact h1 i hi, h1, Nat.le_trans hd hl.1⟩
 
 /-! ## Phase A: `__getstate__` -/
 
